@@ -292,6 +292,8 @@ def main():
     cases = F.alloc_templates() + F.scope_templates()[::4 if quick else 1] + F.seq_enumerated()[::4 if quick else 1] + F.time_enumerated(rep.tier)[::12 if quick else 2]
     # constant indices (negative, equal to and past the length): the bounds check may be decided at compile time, never dropped
     cases += [c for c in F.fault_templates() if 'idx-const' in c.name and (not quick or any(k in c.name for k in ('-neg-', '-len-', '-past-', 'zero-length', 'fixed-global')))]
+    # use-site matrix, index sites: every kind of index expression into every kind of array (the checked index is the one that is used)
+    cases += [c for c in F.usesite_matrix() if any(k in c.name for k in ('/store-index', '/compound-index', '/load-index'))][::5 if quick else 1]
     if not quick:
         cases += F.seq_random(rep.seed, 150) + F.time_random(rep.seed, 100) + [c for c in F.fault_templates()[::2] if 'idx-const' not in c.name] + F.time_examples()
     widths = [2] if quick else [2, 3, 4, 8]
